@@ -199,7 +199,10 @@ class ParseAPI(object):
         blob = self._electrum_to_blob(s)
         if blob and len(blob) == 32:
             mpk = from_bytes_32(blob)
-            return self._network.keys.electrum_private(master_private_key=mpk)
+            try:
+                return self._network.keys.electrum_private(master_private_key=mpk)
+            except ValueError:
+                return None
         return None
 
     def electrum_pub(self, s: str) -> Any:
@@ -210,7 +213,10 @@ class ParseAPI(object):
         """
         blob = self._electrum_to_blob(s)
         if blob and len(blob) == 64:
-            return self._network.keys.electrum_public(master_public_key=blob)
+            try:
+                return self._network.keys.electrum_public(master_public_key=blob)
+            except ValueError:
+                return None
         return None
 
     def p2pkh(self, s: str) -> Contract | None:
@@ -366,7 +372,11 @@ class ParseAPI(object):
                 if v0:
                     if s1 in ("even", "odd"):
                         is_y_odd = s1 == "odd"
-                        point = generator.points_for_x(v0)[is_y_odd]
+                        try:
+                            point = generator.points_for_x(v0)[is_y_odd]
+                        except ValueError:
+                            # no curve point has this x coordinate
+                            return None
                     v1 = self.as_number(s1)
                     if v1:
                         if generator.contains_point(v0, v1):
